@@ -54,6 +54,30 @@ func (f *StructField) compile() error {
 
 // validate
 
+// contains returns true if the field type is or contains a target struct.
+func (f *StructField) contains(target *Struct, seen map[*Struct]struct{}) bool {
+	t := f.Type
+	if t.Kind != KindStruct || t.Ref == nil || t.Ref.Struct == nil {
+		return false
+	}
+
+	s := t.Ref.Struct
+	if s == target {
+		return true
+	}
+	if _, ok := seen[s]; ok {
+		return false
+	}
+	seen[s] = struct{}{}
+
+	for _, field := range s.Fields.Values() {
+		if field.contains(target, seen) {
+			return true
+		}
+	}
+	return false
+}
+
 func (f *StructField) validate() error {
 	t := f.Type
 
